@@ -833,6 +833,11 @@ let mon_c02 (r : runres) =
               | None -> ())
            end else if rr <> epipe && hi.epiped.(s) then fail "C02/epipe-unstick" (Printf.sprintf "read after the closed-stream error returned %d" rr)
          | _ -> ())
+      | OS (SDrain (h, _, _, _, _, _)), RDrain (_, calls) ->
+        (match Hashtbl.find_opt tbl (i h) with
+         | Some hi when hi.started && not hi.fork_mode ->
+           List.iteri (fun k (((_, _), n), rs) -> if k >= 2 && i n > 0 then check_runs (i h) "C02/out" rs) calls
+         | _ -> ())
       | _ -> ()) in
   (* stdin as seen by each child: start-up input then accepted writes, in order, no gaps *)
   Hashtbl.iter (fun h hi ->
